@@ -1,0 +1,289 @@
+//go:build verif
+
+package termemu
+
+import (
+	"bufio"
+	"io"
+
+	"github.com/rivo/uniseg"
+)
+
+// This file is compiled only with -tags verif. It adds no behaviour to the
+// library; it exposes internals to the verification harness in /verif.
+
+// VerifTerm wraps a terminal whose read loop is driven step by step.
+type VerifTerm struct {
+	T  *terminal
+	gr *GraphemeReader
+}
+
+// VerifCell is the cell-level projection of one screen cell.
+type VerifCell struct {
+	Text       []byte // cluster bytes; empty for a continuation cell
+	Width      int    // cell width of the cluster; 0 for a continuation cell
+	FG, BG, UL uint32 // packed style words
+}
+
+// VerifSpan is a raw span of the span buffer.
+type VerifSpan struct {
+	FG, BG, UL uint32
+	Text       []byte
+	IsText     bool
+	Rune       rune
+	Width      int
+}
+
+// VerifScreen is a snapshot of one screen buffer.
+type VerifScreen struct {
+	Grid            bool
+	W, H            int
+	CX, CY          int
+	SX, SY          int
+	Top, Bottom     int
+	AutoWrap        bool
+	FG, BG, UL      uint32
+	TextMode        int
+	Rows            [][]VerifCell
+	RowsOK          bool          // false when the cell projection could not be built (malformed row)
+	RowClaimed      []int         // span buffer: sum of span widths per row; grid: len of row
+	RowCache        []int         // span buffer: cached width per row
+	Spans           [][]VerifSpan // span buffer only
+	GridShapeOK     bool          // grid buffer: all arrays are H x W
+	ZeroWidthSpans  int           // span buffer: number of stored spans with Width <= 0
+	WidthMismatches int           // span buffer: text spans whose re-segmented width differs from Width
+}
+
+// VerifSnapshot is a snapshot of the whole terminal.
+type VerifSnapshot struct {
+	OnAlt     bool
+	Main, Alt VerifScreen
+	Flags     []bool
+	Ints      []int
+	Strings   []string
+	KbdMain   []int // flags followed by the stack, oldest first
+	KbdAlt    []int
+	RdStart   int
+	RdEnd     int
+	RdLen     int
+}
+
+// VerifNew builds a terminal without starting the read loop. With grid set,
+// both buffers are grid screens.
+func VerifNew(f Frontend, b Backend, mode TextReadMode, grid bool, buffered bool) *VerifTerm {
+	t := newTerminal(f, b, mode)
+	if t == nil {
+		return nil
+	}
+	if grid {
+		t.mainScreen = newGridScreen(t.frontend)
+		t.altScreen = newGridScreen(t.frontend)
+	}
+	var src io.Reader = b
+	if buffered {
+		src = bufio.NewReader(b)
+	}
+	return &VerifTerm{T: t, gr: NewGraphemeReaderWithMode(src, mode)}
+}
+
+// Terminal returns the public interface of the wrapped terminal.
+func (v *VerifTerm) Terminal() Terminal { return v.T }
+
+// Step runs one iteration of the read loop in the caller's goroutine.
+func (v *VerifTerm) Step() error { return v.T.ptyReadOne(v.gr) }
+
+// SendMouseRaw forwards to the unexported method.
+func (v *VerifTerm) SendMouseRaw(btn MouseBtn, press bool, mods MouseFlag, x, y int) error {
+	return v.T.SendMouseRaw(btn, press, mods, x, y)
+}
+
+// VerifRuneWidth is the width oracle the screen code uses for one rune.
+func VerifRuneWidth(r rune) int {
+	return uniseg.StringWidth(string(r))
+}
+
+// VerifStepCluster exposes stepTextCluster.
+func VerifStepCluster(buf []byte, state int, mode TextReadMode) ([]byte, int, int, int, bool) {
+	return stepTextCluster(buf, state, mode)
+}
+
+func verifExpandSpans(spans []Span, mode TextReadMode) (cells []VerifCell, ok bool, zero int, mismatch int) {
+	ok = true
+	for _, sp := range spans {
+		if sp.Width <= 0 {
+			zero++
+			continue
+		}
+		if sp.Text == "" {
+			txt := []byte(string(sp.Rune))
+			for i := 0; i < sp.Width; i++ {
+				cells = append(cells, VerifCell{Text: txt, Width: 1, FG: sp.Style.fg, BG: sp.Style.bg, UL: sp.Style.underlineColor})
+			}
+			continue
+		}
+		buf := []byte(sp.Text)
+		state := -1
+		total := 0
+		for len(buf) > 0 {
+			cluster, consumed, width, ns, sok := stepTextCluster(buf, state, mode)
+			if !sok || consumed <= 0 {
+				// incomplete trailing bytes: one cell per byte
+				for _, b := range buf {
+					cells = append(cells, VerifCell{Text: []byte{b}, Width: 1, FG: sp.Style.fg, BG: sp.Style.bg, UL: sp.Style.underlineColor})
+					total++
+				}
+				break
+			}
+			if width < 1 {
+				// zero-width cluster (merge fragment): attach to the previous cell
+				if n := len(cells); n > 0 {
+					j := n - 1
+					for j > 0 && cells[j].Width == 0 {
+						j--
+					}
+					cells[j].Text = append(append([]byte(nil), cells[j].Text...), cluster...)
+				}
+				buf = buf[consumed:]
+				state = ns
+				continue
+			}
+			cells = append(cells, VerifCell{Text: append([]byte(nil), cluster...), Width: width, FG: sp.Style.fg, BG: sp.Style.bg, UL: sp.Style.underlineColor})
+			for i := 1; i < width; i++ {
+				cells = append(cells, VerifCell{Width: 0, FG: sp.Style.fg, BG: sp.Style.bg, UL: sp.Style.underlineColor})
+			}
+			total += width
+			buf = buf[consumed:]
+			state = ns
+		}
+		if total != sp.Width {
+			mismatch++
+			ok = false
+		}
+	}
+	return
+}
+
+func verifSnapScreen(s screen) VerifScreen {
+	var out VerifScreen
+	switch sc := s.(type) {
+	case *spanScreen:
+		out = VerifScreen{W: sc.size.X, H: sc.size.Y, CX: sc.cursorPos.X, CY: sc.cursorPos.Y,
+			SX: sc.savedCursorPos.X, SY: sc.savedCursorPos.Y, Top: sc.topMargin, Bottom: sc.bottomMargin,
+			AutoWrap: sc.autoWrap, FG: sc.style.fg, BG: sc.style.bg, UL: sc.style.underlineColor, TextMode: int(sc.textMode)}
+		out.RowsOK = true
+		for _, ln := range sc.lines {
+			claimed := 0
+			var raw []VerifSpan
+			for _, sp := range ln.spans {
+				claimed += sp.Width
+				raw = append(raw, VerifSpan{FG: sp.Style.fg, BG: sp.Style.bg, UL: sp.Style.underlineColor,
+					Text: []byte(sp.Text), IsText: sp.Text != "", Rune: sp.Rune, Width: sp.Width})
+			}
+			cells, ok, zero, mm := verifExpandSpans(ln.spans, sc.textMode)
+			if !ok {
+				out.RowsOK = false
+			}
+			out.ZeroWidthSpans += zero
+			out.WidthMismatches += mm
+			out.Rows = append(out.Rows, cells)
+			out.RowClaimed = append(out.RowClaimed, claimed)
+			out.RowCache = append(out.RowCache, ln.width)
+			out.Spans = append(out.Spans, raw)
+		}
+	case *gridScreen:
+		out = VerifScreen{Grid: true, W: sc.size.X, H: sc.size.Y, CX: sc.cursorPos.X, CY: sc.cursorPos.Y,
+			SX: sc.savedCursorPos.X, SY: sc.savedCursorPos.Y, Top: sc.topMargin, Bottom: sc.bottomMargin,
+			AutoWrap: sc.autoWrap, FG: sc.style.fg, BG: sc.style.bg, UL: sc.style.underlineColor}
+		out.RowsOK = true
+		out.GridShapeOK = len(sc.chars) == sc.size.Y && len(sc.cellText) == sc.size.Y &&
+			len(sc.cellWidth) == sc.size.Y && len(sc.cellCont) == sc.size.Y && len(sc.cellStyles) == sc.size.Y
+		for y := 0; y < len(sc.chars); y++ {
+			if !out.GridShapeOK || len(sc.chars[y]) != sc.size.X || len(sc.cellText[y]) != sc.size.X ||
+				len(sc.cellWidth[y]) != sc.size.X || len(sc.cellCont[y]) != sc.size.X || len(sc.cellStyles[y]) != sc.size.X {
+				out.GridShapeOK = false
+				break
+			}
+			var cells []VerifCell
+			for x := 0; x < sc.size.X; x++ {
+				st := sc.cellStyles[y][x]
+				c := VerifCell{FG: st.fg, BG: st.bg, UL: st.underlineColor}
+				if sc.cellCont[y][x] {
+					c.Width = 0
+				} else {
+					c.Text = []byte(sc.cellText[y][x])
+					c.Width = int(sc.cellWidth[y][x])
+				}
+				cells = append(cells, c)
+			}
+			out.Rows = append(out.Rows, cells)
+			out.RowClaimed = append(out.RowClaimed, len(cells))
+			out.RowCache = append(out.RowCache, len(cells))
+		}
+	}
+	return out
+}
+
+// Snapshot copies the observable state of the terminal. The caller must make
+// sure the read loop is not running concurrently.
+func (v *VerifTerm) Snapshot() VerifSnapshot {
+	t := v.T
+	s := VerifSnapshot{OnAlt: t.onAltScreen, Main: verifSnapScreen(t.mainScreen), Alt: verifSnapScreen(t.altScreen)}
+	s.Flags = append([]bool(nil), t.viewFlags...)
+	s.Ints = append([]int(nil), t.viewInts...)
+	s.Strings = append([]string(nil), t.viewStrings...)
+	s.KbdMain = append([]int{t.keyboardMain.flags}, t.keyboardMain.stack...)
+	s.KbdAlt = append([]int{t.keyboardAlt.flags}, t.keyboardAlt.stack...)
+	s.RdStart, s.RdEnd, s.RdLen = v.gr.start, v.gr.end, len(v.gr.data)
+	return s
+}
+
+// VerifLine is a span line detached from any screen, for function-level
+// comparison of the span splicing primitives with their model.
+type VerifLine struct{ l spanLine }
+
+func verifToSpans(in []VerifSpan) []Span {
+	var out []Span
+	for _, sp := range in {
+		s := Span{Style: Style{fg: sp.FG, bg: sp.BG, underlineColor: sp.UL}, Rune: sp.Rune, Width: sp.Width}
+		if sp.IsText {
+			s.Text = string(sp.Text)
+		}
+		out = append(out, s)
+	}
+	return out
+}
+
+func verifFromSpans(in []Span) []VerifSpan {
+	var out []VerifSpan
+	for _, sp := range in {
+		out = append(out, VerifSpan{FG: sp.Style.fg, BG: sp.Style.bg, UL: sp.Style.underlineColor,
+			Text: []byte(sp.Text), IsText: sp.Text != "", Rune: sp.Rune, Width: sp.Width})
+	}
+	return out
+}
+
+// VerifReplaceRange runs replaceRange on a detached line and returns the
+// resulting spans and cached width.
+func VerifReplaceRange(spans []VerifSpan, cache int, x, n int, insert VerifSpan, mode TextReadMode) ([]VerifSpan, int) {
+	l := spanLine{spans: verifToSpans(spans), width: cache}
+	ins := verifToSpans([]VerifSpan{insert})[0]
+	replaceRange(&l, x, n, ins, mode)
+	return verifFromSpans(l.spans), l.width
+}
+
+// VerifSplitSpan runs splitSpan.
+func VerifSplitSpan(sp VerifSpan, off int, mode TextReadMode) (VerifSpan, VerifSpan, VerifSpan) {
+	a, b, c := splitSpan(verifToSpans([]VerifSpan{sp})[0], off, mode)
+	r := verifFromSpans([]Span{a, b, c})
+	return r[0], r[1], r[2]
+}
+
+// VerifEncodeKey exposes encodeKey (pure in the terminal's mode registers).
+func (v *VerifTerm) VerifEncodeKey(ev KeyEvent) []byte { return v.T.encodeKey(ev) }
+
+// VerifSetKbdFlags sets the active screen's Kitty flags directly.
+func (v *VerifTerm) VerifSetKbdFlags(flags int) { v.T.keyboardMode().flags = flags }
+
+// VerifSetViewInt / VerifSetViewFlag set mode registers directly (no callback).
+func (v *VerifTerm) VerifSetViewInt(i ViewInt, val int)    { v.T.viewInts[i] = val }
+func (v *VerifTerm) VerifSetViewFlag(i ViewFlag, val bool) { v.T.viewFlags[i] = val }
